@@ -9,6 +9,7 @@ mod matrix;
 mod mutate;
 mod queries;
 mod resmon;
+mod resource;
 mod tamper;
 mod recorded;
 mod trace;
@@ -61,6 +62,7 @@ fn main() {
         "queries" => Some(queries::run(&args)),
         "config" => Some(config_check::run(&args)),
         "forge" => Some(forge::run(&args)),
+        "resource" => Some(resource::run(&args)),
         _ => vcomp::dispatch(&args),
     };
     match rep {
